@@ -7,12 +7,13 @@ From SC Require Import Base.Prelude Race.Lockset Race.Known Gen.Locks.
 Inductive c11case := KPair (loc fa fb : string) (raced : bool).
 
 Definition in_fn (loc f : string) (s : site) : bool :=
-  String.eqb (s_loc s) loc && String.eqb (s_fn s) f.
+  if String.eqb (s_loc s) loc then String.eqb (s_fn s) f else false.
 
 (* the model's verdict on the pair: every conflicting site pair of the two functions is compatible *)
 Definition pair_disciplined (tb : table) (loc fa fb : string) : bool :=
-  forallb (fun a => negb (in_fn loc fa a) ||
-     forallb (fun b => negb (in_fn loc fb b) || pair_ok tb [] a b && pair_ok tb [] b a) (t_sites tb)) (t_sites tb).
+  forallb (fun a => if in_fn loc fa a then
+     forallb (fun b => if in_fn loc fb b then (if pair_ok tb [] a b then pair_ok tb [] b a else false) else true) (t_sites tb)
+     else true) (t_sites tb).
 
 Definition pair_known (K : known) (loc fa fb : string) : bool :=
   existsb (fun k => match k with (x, f, g) =>
@@ -20,7 +21,7 @@ Definition pair_known (K : known) (loc fa fb : string) : bool :=
 
 (* model = observation: the detector is silent on a pair the table marks disciplined *)
 Definition agrees (c : c11case) : bool :=
-  match c with KPair loc fa fb raced => negb raced || negb (pair_disciplined lock_table loc fa fb) end.
+  match c with KPair loc fa fb raced => if raced then negb (pair_disciplined lock_table loc fa fb) else true end.
 
 (* the property on the observation: no race on this pair *)
 Definition C11_ok (c : c11case) : bool := match c with KPair _ _ _ raced => negb raced end.
